@@ -24,7 +24,7 @@ if os.path.exists(rp):
 def applies(path):
     return subprocess.run(["git", "-C", "/repo", "apply", "--check", path], capture_output=True).returncode == 0
 
-for rnd, inc in (("1", "_incoming"), ("2", "_incoming2"), ("3", "_incoming3"), ("4", "_incoming4"), ("5", "_incoming5")):
+for rnd, inc in (("1", "_incoming"), ("2", "_incoming2"), ("3", "_incoming3"), ("4", "_incoming4"), ("5", "_incoming5"), ("6", "_incoming6")):
     base = os.path.join(S, inc)
     if not os.path.isdir(base):
         continue
@@ -33,7 +33,7 @@ for rnd, inc in (("1", "_incoming"), ("2", "_incoming2"), ("3", "_incoming3"), (
             src = os.path.join(base, p, "change%s.diff" % i)
             if not os.path.exists(src):
                 continue
-            idx = str(int(i) + {"1": 0, "2": 2, "3": 4, "4": 6, "5": 9}[rnd])
+            idx = str(int(i) + {"1": 0, "2": 2, "3": 4, "4": 6, "5": 9, "6": 12}[rnd])
             name = "%s-%s" % (p, idx)
             d = os.path.join(S, name)
             os.makedirs(d, exist_ok=True)
